@@ -8,9 +8,11 @@ Section Matchers.
   Definition amb (fuel : nat) (keys : list K) : res (list K) :=
     all_missing_bindings (keqb D) (req D) fuel keys [].
 
-  (** requested_bindings of try_from_pattern_with_indexing *)
-  Definition requested (fuel : nat) (cs : list (constraint K P)) : res (list K) :=
-    amb fuel (flat_map cargs cs).
+  (** requested_bindings of try_from_pattern_with_indexing: the keys that the
+      pattern additionally requires ([Pattern::required_bindings], [extra]) and the
+      keys of the constraints, prerequisites first *)
+  Definition requested (fuel : nat) (extra : list K) (cs : list (constraint K P)) : res (list K) :=
+    amb fuel (extra ++ flat_map cargs cs).
 
   Fixpoint filter_satb (h : H) (c : constraint K P) (ms : list M) : res (list M) :=
     match ms with
@@ -30,10 +32,12 @@ Section Matchers.
         match queue with
         | [] => Ok (rev acc)
         | ([], m) :: q =>
-            let* m' := mretain D reqk m in
-            if forallb (fun k => match mget D m' k with Some _ => true | None => false end) reqk
-            then single_loop f h reqk q (m' :: acc)
-            else single_loop f h reqk q acc
+            (* bind the requested keys that no constraint has bound, then retain *)
+            let missing := filter (fun k => match mget D m k with None => true | Some _ => false end) reqk in
+            let* bs := bind_all D h m missing false in
+            let* bs' := rmapM (mretain D reqk) bs in
+            let complete := filter (fun m' => forallb (fun k => match mget D m' k with Some _ => true | None => false end) reqk) bs' in
+            single_loop f h reqk q (rev complete ++ acc)
         | (c :: rest, m) :: q =>
             let* keys := amb fuel (cargs c) in
             let* cands := bind_all D h m keys false in
@@ -42,9 +46,13 @@ Section Matchers.
         end
     end.
 
-  Definition single (fuel : nat) (cs : list (constraint K P)) (h : H) : res (list M) :=
-    let* reqk := requested fuel cs in
+  Definition single_ext (fuel : nat) (extra : list K) (cs : list (constraint K P)) (h : H) : res (list M) :=
+    let* reqk := requested fuel extra cs in
     single_loop fuel h reqk [(cs, mempty D)] [].
+
+  (** patterns that request no additional bindings (all shipped pattern types) *)
+  Definition single (fuel : nat) (cs : list (constraint K P)) (h : H) : res (list M) :=
+    single_ext fuel [] cs h.
 
   Definition match_exists (fuel : nat) (cs : list (constraint K P)) (h : H) : res bool :=
     let* r := single fuel cs h in Ok (match r with [] => false | _ => true end).
